@@ -44,6 +44,13 @@ APPEND2 = ["write", "swap", "permute", "reverse", "sort", "reset", "walk", "new2
 APPEND2L = ["write", "swap", "permute", "walk", "new2", "appendo"]
 # nested views (slice of slice, transposed ...): reads, iteration, writes through the inner view
 NEST = ["write", "swap", "vwalk", "vwrite"]
+# whole-view operations with a slice view as receiver (Reset, SetIdentity, Set, MdotM, MmulS, MaddM, Map): the
+# elements of the matrix outside the view must keep their values
+BULK = ["write", "vbulk"]
+BULK_EVENTS = ["w_reset", "w_identity", "w_set", "w_mdotm", "w_muls", "w_addm", "w_map"]
+# Real element types: elements with value 0 and a non-zero derivative are non-zero elements
+DERIV = ["write", "setvar", "reset", "swap", "reverse", "slice", "append", "iter", "next", "walk"]
+DERIVM = ["write", "setvar", "reset", "swap", "walk", "vwalk", "iter", "next"]
 # vectors of length 0 and matrices with zero rows / zero columns
 EMPTY = ["reset", "walk", "iter", "jwalk", "vmuls", "vadds", "vsubself", "sort", "reverse", "permute", "vaddv", "set"]
 
@@ -52,9 +59,9 @@ def opset(ops):
     return "{" + ", ".join('"%s"' % o for o in ops) + "}"
 
 
-def K(N0, MaxN, NIter, MaxObj, WMax, ops, Cols=0, ViewDepth=1, ViewT=0):
+def K(N0, MaxN, NIter, MaxObj, WMax, ops, Cols=0, ViewDepth=1, ViewT=0, BMode=0):
     return dict(N0=N0, MaxN=MaxN, NIter=NIter, MaxObj=MaxObj, WMax=WMax, ops=ops, Cols=Cols, ViewDepth=ViewDepth,
-                ViewT=ViewT)
+                ViewT=ViewT, BMode=BMode)
 
 
 PLAN = {
@@ -63,7 +70,10 @@ PLAN = {
         emit=[("all1", K(3, 3, 1, 1, 1, ALL)), ("it2", K(3, 3, 2, 1, 1, ITER)),
               ("share2", K(2, 2, 1, 2, 1, [o for o in SHARE if o != "permute"])),
               ("view4", K(4, 4, 1, 1, 1, ["write", "reset", "swap", "walk", "vwalk"], Cols=2)),
-              ("nest4", K(4, 4, 1, 1, 1, NEST, Cols=2, ViewDepth=2, ViewT=1)), ("empty0", K(0, 0, 1, 1, 1, EMPTY)),
+              ("nest4", K(4, 4, 1, 1, 1, [o for o in NEST if o != "swap"], Cols=2, ViewDepth=2, ViewT=1)),
+              ("empty0", K(0, 0, 1, 1, 1, EMPTY)), ("bulk4", K(4, 4, 1, 1, 1, BULK, Cols=2)),
+              ("deriv3", K(3, 3, 1, 1, 1, [o for o in DERIV if o not in ("append", "reverse")])),
+              ("derivm2", K(2, 2, 1, 1, 1, DERIVM, Cols=2)),
               ("app2a", K(1, 3, 1, 2, 1, APPEND2)), ("app2d", K(2, 3, 1, 2, 1, APPEND2L))],
         dense=["all1"],
         # exhaustive refinement check only
@@ -78,6 +88,9 @@ PLAN = {
               ("view3", K(3, 3, 1, 1, 1, VIEW, Cols=3)), ("view4", K(4, 4, 1, 1, 1, VIEW, Cols=2)),
               ("view3n", K(3, 3, 1, 1, 1, NEST, Cols=3, ViewDepth=2, ViewT=1)),
               ("nest4", K(4, 4, 1, 1, 1, NEST, Cols=2, ViewDepth=3, ViewT=1)), ("empty0", K(0, 0, 1, 1, 1, EMPTY)),
+              ("bulk4", K(4, 4, 1, 1, 1, BULK, Cols=2, ViewDepth=2, BMode=1)),
+              ("deriv3", K(3, 3, 1, 1, 1, DERIV + ["permute", "from"])), ("derivm2", K(2, 2, 1, 1, 1, DERIVM, Cols=2)),
+              ("derivm4", K(4, 4, 1, 1, 1, ["write", "setvar", "swap", "vwalk"], Cols=2)),
               ("app2c", K(2, 4, 1, 2, 1, APPEND2L)), ("app2", K(2, 4, 1, 2, 1, APPEND2 + ["iter", "next"]))],
         dense=["all1"],
         check=[("it2grow", K(3, 4, 2, 1, 1, CORE)), ("share3", K(3, 3, 1, 2, 1, SHARE)),
@@ -88,18 +101,18 @@ PLAN = {
 }
 
 # what every emitting configuration must have produced at least once, as last call of a case
-OP_EVENTS = {"append": ["appends", "appendv"], "slice": ["slice"]}
+OP_EVENTS = {"append": ["appends", "appendv"], "slice": ["slice"], "vbulk": BULK_EVENTS}
 
 
 def consts_of(k, emit, emit_at=0):
     return {"N0": str(k["N0"]), "MaxN": str(k["MaxN"]), "NIter": str(k["NIter"]), "MaxObj": str(k["MaxObj"]),
             "WMax": str(k["WMax"]), "Cols": str(k.get("Cols", 0)), "ViewDepth": str(k.get("ViewDepth", 1)),
-            "ViewT": str(k.get("ViewT", 0)), "Ops": opset(k["ops"]), "Emit": "TRUE" if emit else "FALSE",
+            "ViewT": str(k.get("ViewT", 0)), "BMode": str(k.get("BMode", 0)), "Ops": opset(k["ops"]), "Emit": "TRUE" if emit else "FALSE",
             "EmitAt": str(emit_at), "SwapBug": "FALSE", "StaleBug": "FALSE", "SliceBug": "FALSE"}
 
 
 def bounds_of(k):
-    return {a: k[a] for a in ("N0", "MaxN", "NIter", "MaxObj", "WMax", "Cols", "ViewDepth", "ViewT")}
+    return {a: k[a] for a in ("N0", "MaxN", "NIter", "MaxObj", "WMax", "Cols", "ViewDepth", "ViewT", "BMode")}
 
 
 def tlc(ctx, *a, **kw):
@@ -424,8 +437,10 @@ MANIFEST = {
             "TLC simulation; a second vector with its own history (same type, another sparse element type, dense) is "
             "appended with AppendVector, and views of sparse matrices (words of Slice/T steps up to depth 3, empty "
             "ranges, 0-row/0-column matrices; SparseMatrixView.tla: index-map composition vs header arithmetic) are "
-            "written through and iterated (Iterator/"
-            "IteratorFrom/ConstIterator) and read while the parent is mutated by zero writes, Swap and Reset; "
+            "written through, used as receiver of whole-view operations (Reset, SetIdentity, Set, MdotM, MmulS, MaddM, "
+            "Map; elements outside the view must keep their values) and iterated; Real elements with value 0 and a "
+            "non-zero derivative are non-zero elements that every iteration must deliver; views are iterated "
+            "(Iterator/IteratorFrom/ConstIterator) and read while the parent is mutated by zero writes, Swap and Reset; "
             "seeded random histories of 300 operations over length 16 for every element type (vectors "
             "and 4x4 matrices incl. SwapRows/SwapColumns) recorded from the real code are accepted by the contract's "
             "trace specification (binding self-test: four kinds of corruption are rejected). The pre-fix behaviours "
